@@ -410,7 +410,9 @@ class BaseDOELibrary(BaseDriverLibrary, Serializable):
         """
         design_space = self.__get_design_space(variables_space)
         integer_normalization_enabled = False
-        if not unit_sampling and isinstance(design_space, DesignSpace):
+        if isinstance(design_space, DesignSpace):
+            # Also for a unit sampling:
+            # a DOE algorithm can use the design space to compute the unit samples.
             integer_normalization_enabled = (
                 self.__enable_integer_variables_normalization(design_space)
             )
